@@ -164,6 +164,7 @@ def save_replay(pid, src_path, content=None):
 
 def check(pid, tier):
     spec = CHECKS[pid]
+    CURRENT_PID[0] = pid
     base_seed = int(os.environ.get("VERIF_SEED", "1") or "1")
     os.environ["VERIF_TIER_EFF"] = tier
     t0 = time.time()
@@ -245,6 +246,7 @@ def check(pid, tier):
             env.update(u.get("env", {}))
             timeout = t.get("timeout", 600 if tier == "quick" else 4 * 3600)
             if u.get("kind") == "fuzz":
+                env["VERIF_STATS_PER_PROCESS"] = "1"
                 cache = os.path.join(rd, "fuzzcache")
                 cmd = [binp, "-test.run", "^$", "-test.fuzz", "^%s$" % u["test"], "-test.fuzztime", t["fuzztime"],
                        "-test.fuzzcachedir", cache, "-test.parallel", str(t.get("parallel", NCPU))]
@@ -256,6 +258,20 @@ def check(pid, tier):
                     cmd.append("-rapid.steps=%d" % t["steps"])
             rc, out, to, dt = run_proc(cmd, os.path.join(tree, u["pkg"]), env, timeout + 60)
             shutil.rmtree(os.path.join(rd, "db"), ignore_errors=True)
+            if u.get("kind") == "fuzz" and rc != 0 and not to:
+                # a worker died (or the target failed without writing a case): turn the engine's crasher file into a replay
+                faildir = os.path.join(rd, "fail")
+                if not any(f.startswith("fail-") for f in os.listdir(faildir)):
+                    cdir = os.path.join(tree, u["pkg"], "testdata", "fuzz", u["test"])
+                    if os.path.isdir(cdir):
+                        files = sorted((os.path.getmtime(os.path.join(cdir, f)), f) for f in os.listdir(cdir))
+                        if files:
+                            data = go_corpus_bytes(os.path.join(cdir, files[-1][1]))
+                            if data is not None:
+                                import base64
+                                ff = {"property": spec_id(u), "check": u["test"], "failure": "native fuzzing: the process died or the target failed on this input: " + out[-600:],
+                                      "case": {"data": base64.b64encode(data).decode(), "input": base64.b64encode(data).decode()}}
+                                json.dump(ff, open(os.path.join(faildir, "fail-%s.json" % u["test"]), "w"))
             return dict(ui=ui, unit=u, shard=s, seed=seed, rc=rc, out=out, timed_out=to, rd=rd, dt=dt, req=t.get("checks", 0))
 
         def run_job_retry(job):
@@ -284,8 +300,8 @@ def check(pid, tier):
                                           fp_overflow=0, shards=0, notes={}, requested=0))
             a["shards"] += 1
             a["requested"] += res["req"]
-            sp = os.path.join(res["rd"], "stats.json")
-            if os.path.exists(sp):
+            stat_files = [os.path.join(res["rd"], f) for f in sorted(os.listdir(res["rd"])) if f.startswith("stats.json") and not f.endswith(".tmp")] if os.path.isdir(res["rd"]) else []
+            for sp in stat_files:
                 for st in (json.load(open(sp)) or []):
                     b = agg.setdefault(st["check"], dict(evaluations=0, nontrivial=0, labels={}, excluded={}, fps=set(),
                                                          samples=[], fp_overflow=0, shards=0, notes={}, requested=0))
@@ -416,6 +432,27 @@ def check(pid, tier):
     finally:
         if not os.environ.get("VERIF_KEEP"):
             shutil.rmtree(work, ignore_errors=True)
+
+
+def go_corpus_bytes(path):
+    """Parses a Go fuzz corpus file holding one []byte value."""
+    import ast
+    try:
+        lines = open(path, encoding="utf-8", errors="surrogateescape").read().splitlines()
+        for l in lines[1:]:
+            l = l.strip()
+            if l.startswith("[]byte(") and l.endswith(")"):
+                return ast.literal_eval("b" + l[len("[]byte("):-1])
+    except Exception:
+        return None
+    return None
+
+
+CURRENT_PID = [None]
+
+
+def spec_id(u):
+    return CURRENT_PID[0]
 
 
 def tail_fail(out):
